@@ -30,7 +30,7 @@
     * `HasInode cfg e`    with -H a multiply-linked regular file carries `inode = Some(..)` (always on Unix);
                           `hardlink_without_inode_is_plain_copy` says what the code does otherwise;
     * `NotPlainDir e`     (update only) the entry is not a plain directory: never planned; the model and the code
-                          DISAGREE there (`update_dir_differs_from_model`);
+                          see `update_dir_call_sequence`;
     * `FlagOK`            (delete only) the `is_dir` flag describes the node (computed by the engine right before).
   Part 3 — where code and model differ (concrete inputs).
   Part 4 — C17 restated about the TRANSLATED `create`: preserve / follow / skip, and the xattrs of a transferred file.
@@ -79,15 +79,51 @@ theorem create_dir_calls_only_create_dir_all (hdry : self.dry_run = false) (hs :
   rcases runM (ext.t_create_dir_all self.transport d) w with ⟨r, w'⟩
   cases r <;> rfl
 
-/-- `update` of a plain directory entry calls nothing. -/
-theorem update_dir_does_nothing (hs : e.is_symlink = false) (hd : e.is_dir = true) :
-    runM (self.update ext e d) w = (.ok none, w) := by
-  cases hdry : self.dry_run with
-  | true => exact (dry_run_changes_nothing ext self e d w hdry false).2.1
-  | false =>
-    unfold Transferrer.update
-    simp only [hdry, hs, hd, Bool.false_eq_true, ↓reduceIte, Bool.not_true, Bool.false_and]
-    rfl
+/-- `Rs.capture` (a `Result` kept as a value): the computation runs, its outcome is the value, nothing is thrown -/
+theorem runM_capture {W α : Type} (x : Rs.M W α) (w : W) :
+    runM (Rs.capture x) w = ((.ok (runM x w).1 : Except Rs.Err (Except Rs.Err α)), (runM x w).2) := by
+  simp only [runM, Rs.capture]
+  rfl
+
+/-- `update` of a plain directory entry (planned only when the destination holds a symlink where the source has a
+    directory, fix 862af11): a dry run calls nothing; a real run probes the path with `read_link`, removes the entry (as a
+    non-directory: the link itself) when the probe answers "a link" — a failing probe is "no link" —, then runs
+    `create_dir_all`; the answer is `Ok(None)`, and a failing removal or creation fails the task. -/
+theorem update_dir_call_sequence (hdry : self.dry_run = false) (hs : e.is_symlink = false) (hd : e.is_dir = true) :
+    runM (self.update ext e d) w =
+      match runM (ext.t_read_link self.transport d) w with
+      | (.ok (some _), w1) =>
+        (match runM (ext.t_remove self.transport d false) w1 with
+         | (.ok _, w2) =>
+           (match runM (ext.t_create_dir_all self.transport d) w2 with
+            | (.ok _, w3) => (.ok none, w3)
+            | (.error er, w3) => (.error er, w3))
+         | (.error er, w2) => (.error er, w2))
+      | (_, w1) =>
+        (match runM (ext.t_create_dir_all self.transport d) w1 with
+         | (.ok _, w3) => (.ok none, w3)
+         | (.error er, w3) => (.error er, w3)) := by
+  unfold Transferrer.update Transferrer.create_directory
+  simp only [hdry, hs, hd, Bool.false_eq_true, ↓reduceIte, Bool.not_true, Bool.false_and, runM_bind, runM_capture]
+  rcases h1 : runM (ext.t_read_link self.transport d) w with ⟨r, w1⟩
+  rcases r with er | (_ | t)
+  · simp only [runM_bind, runM_pure]
+    rcases runM (ext.t_create_dir_all self.transport d) w1 with ⟨r3, w3⟩
+    cases r3 <;> rfl
+  · simp only [runM_bind, runM_pure]
+    rcases runM (ext.t_create_dir_all self.transport d) w1 with ⟨r3, w3⟩
+    cases r3 <;> rfl
+  · simp only [runM_bind, runM_pure]
+    rcases runM (ext.t_remove self.transport d false) w1 with ⟨r2, w2⟩
+    cases r2
+    · rfl
+    · simp only []
+      rcases runM (ext.t_create_dir_all self.transport d) w2 with ⟨r3, w3⟩
+      cases r3 <;> rfl
+
+theorem update_dir_dry_run_does_nothing (hdry : self.dry_run = true) :
+    runM (self.update ext e d) w = (.ok none, w) :=
+  (dry_run_changes_nothing ext self e d w hdry false).2.1
 
 /-- SKIP mode: nothing is called for a symlink entry, by `create` or by `update`. -/
 theorem skip_mode_calls_nothing (hs : e.is_symlink = true) (hm : self.symlink_mode = .Skip) :
@@ -270,24 +306,6 @@ end plain
 
 /-! ## Part 3 — where the code and the model differ -/
 
-/-- DISAGREEMENT (`update` of a plain directory entry).  The code does nothing (`update_dir_does_nothing`); the model's
-    `perform` for an update task with a directory payload runs `mkdirAll`.  Wherever the directory is missing the two
-    differ: after the model's task the path holds a directory, after the code's it holds nothing.  Harmless in the real
-    program: `plan_file_async` never answers Update for a directory entry (Skip when a directory is there, Create
-    otherwise — `Props/GenPlannerFx`), so the engine never makes this call; the model's arm is unreachable too
-    (`planEntry` gives `.skip`/`.create` for `.dir`).  The Rust code is right to do nothing for what cannot be planned;
-    the model is merely more generous. -/
-theorem update_dir_differs_from_model (cfg : Cfg) (self : Transferrer) (xw : XWorld) (e : FileEntry) (k : Engine.Path)
-    (hk : CleanPath k) (hd : cfg.dryRun = false) (hs : e.is_symlink = false) (hdir : e.is_dir = true)
-    (hn : xw.w.dst.get? k = none) :
-    (runM (self.update (extOf cfg) e (destOf xw.root k)) xw).2.w.dst.get? k = none ∧
-      ∀ w', perform cfg xw.w (absTask cfg xw .update e k) = some w' → w'.dst.get? k = some .dir := by
-  refine ⟨by rw [update_dir_does_nothing (extOf cfg) self e _ xw hs hdir]; exact hn, fun w' h => ?_⟩
-  unfold absTask at h
-  rw [perform_update cfg _ _ _ hd] at h
-  simp only [absPayload, hs, hdir, Bool.false_eq_true, ↓reduceIte, cuArm, mkdirW, Option.map_eq_some_iff] at h
-  obtain ⟨d, hm, rfl⟩ := h
-  exact mkdirAll_dirs hm k hk.1 (isPrefix_refl k)
 
 /-- OUTSIDE THE MODEL (a source that vanished or stopped being a regular file after the scan): `create` of a
     regular-file entry fails in `copy_file`, after `create_dir_all(parent)`; nothing is written at the path.  The model
